@@ -210,7 +210,8 @@ pub fn render(sc: &Value) -> Rendered {
                     line.push_str(&format!("{:x}", sz));
                 }
                 if exts.get(i % exts.len().max(1)).and_then(|x| x.as_bool()).unwrap_or(false) {
-                    line.push_str(";ext=1");
+                    // (extobs: a quoted-string with obs-text, legal in a chunk extension; the one 0xE9 octet is put in below)
+                    line.push_str(if gb(&body, "extobs") { ";by=\"caf\u{1}\"" } else { ";ext=1" });
                     ext_ranges.push((wire.len(), wire.len() + line.len() + eol_size.len()));
                 }
                 if !bad_what.is_empty() && bad_chunk == i {
@@ -249,7 +250,13 @@ pub fn render(sc: &Value) -> Rendered {
                         break;
                     }
                 }
+                let line_at = wire.len();
                 wire.extend_from_slice(line.as_bytes());
+                for b in &mut wire[line_at..] {
+                    if *b == 1 {
+                        *b = 0xE9;
+                    }
+                }
                 wire.extend_from_slice(eol_size);
                 for j in 0..sz {
                     data_pos.push(wire.len() + j);
@@ -631,7 +638,10 @@ pub fn run(sc: &Value) -> Vec<String> {
                     if let Some(l) = gso(sc, "default_charset") {
                         b = b.default_charset(charset_by_label(l));
                     }
-                    b = b.follow_redirects(false);
+                    // ("follow": redirects stay switched on, the default; the scenario's status is one that is never followed)
+                    if !gb(sc, "follow") {
+                        b = b.follow_redirects(false);
+                    }
                     let res = catch_unwind(AssertUnwindSafe(|| b.send()));
                     match res {
                         Ok(Ok(rp)) => {
@@ -714,7 +724,7 @@ pub fn run(sc: &Value) -> Vec<String> {
                 "drop" => {
                     resp = None;
                 }
-                "bytes" | "write_to" | "text_utf8_raw" | "text" | "text_utf8" | "text_with" | "text_reader" | "efs_bytes" | "split_bytes" => {
+                "bytes" | "write_to" | "text_utf8_raw" | "text" | "text_utf8" | "text_with" | "text_reader" | "efs_bytes" | "split_bytes" | "json" | "json_utf8" => {
                     let Some(rp) = resp.take() else { continue };
                     emit(json!({"ev":"call","op":op,"buf":n}));
                     let label = gso(sc, "text_label").unwrap_or("utf-8").to_string();
@@ -750,6 +760,11 @@ pub fn run(sc: &Value) -> Vec<String> {
                                 let mut w = SlowWriter(Vec::new(), if n == 0 { usize::MAX } else { n });
                                 rp.write_to(&mut w).map_err(|e| err_kind(&e)).map(|_| w.0)
                             }
+                            // the JSON helpers: the document is handed back re-serialised (compared with the reference parse)
+                            #[cfg(not(feature = "min"))]
+                            "json" => rp.json::<serde_json::Value>().map(|v| serde_json::to_vec(&v).unwrap()).map_err(|e| err_kind(&e)),
+                            #[cfg(not(feature = "min"))]
+                            "json_utf8" => rp.json_utf8::<serde_json::Value>().map(|v| serde_json::to_vec(&v).unwrap()).map_err(|e| err_kind(&e)),
                             "text_utf8_raw" | "text_utf8" => rp.text_utf8().map(|s| s.into_bytes()).map_err(|e| err_kind(&e)),
                             "text" => rp.text().map(|s| s.into_bytes()).map_err(|e| err_kind(&e)),
                             #[cfg(not(feature = "min"))]
